@@ -22,12 +22,14 @@ from harness.lib import cb, cl, cn, cs, cz
 
 PROP = "C10"
 IMPORTS = "Base Remote"
-SHARD = 40
+SHARD = 64
+JOBS = 12
 RULE = ("workflows of 1-5 children in topological numbering: function leaves (0-3 args, constants or 1-2 prioritised "
         "connections to earlier children) and macros from a fixed library (chain, forked input, nested, two outputs, "
         "doubly nested); every child, every node inside a macro and the root independently local / manual executor / "
         "pickle-boundary executor / executor given as instructions; every completion order by the oracle list "
-        "(small shapes exhaustively in the thorough tier); plus run-cycle histories (set / run / complete / clear) on one "
+        "(small shapes exhaustively in the thorough tier); plus run-cycle histories (set / set_input_values / run / "
+        "run(check_readiness=False) / execute / complete / clear, incl. fail-on-executor -> repair -> out again past the gate) on one "
         "leaf or macro with neighbours; plus For nodes and real thread / process / cloudpickle-process pools. "
         "Non-trivial: at least one node crosses a pickle boundary or is probed while out. Distinct = distinct case.")
 TRUSTED = ["harness PickleBoundaryExecutor (cloudpickle.dumps at submit, loads + run + dumps/loads of the result at the "
@@ -646,18 +648,22 @@ def run_cycle(case):
         return True
     for op in case["ops"]:
         out_before = len(c.pending()) > 0
-        if op[0] in ("set", "oset"):
+        if op[0] in ("set", "oset", "setv"):
             before = all_values()
             try:
-                (X if op[0] == "set" else outer).inputs[op[1]].value = op[2]
+                if op[0] == "setv":
+                    X.set_input_values(**{op[1]: op[2]})
+                else:
+                    (X if op[0] == "set" else outer).inputs[op[1]].value = op[2]
                 log.append("ok")
             except RuntimeError:
                 log.append("RuntimeError")
                 if all_values() != before:
                     extra.append(["refused-but-changed", f"the refused assignment {op} changed a channel value"])
-        elif op[0] == "run":
+        elif op[0] in ("run", "runx", "exec"):
             try:
-                r = X.run()
+                # runx / exec skip the readiness gate: a node whose (sticky) failed flag is still set goes out again
+                r = X.run() if op[0] == "run" else X.run(check_readiness=False) if op[0] == "runx" else X.execute()
                 log.append("Future" if isinstance(r, cf.Future) else "value")
                 if isinstance(r, cf.Future):
                     sent = shown()
@@ -670,13 +676,15 @@ def run_cycle(case):
             else:
                 if sent is not None and shown() != sent:
                     extra.append(["changed-while-out", f"sent out with {sent}, shows {shown()} before its job ended"])
+                fut = pend[0][1]
                 with nodes.poll_hook(first_pending):     # executors that exist only on the far side
-                    pend[0][0].complete(pend[0][1])
+                    pend[0][0].complete(fut)
+                job_ok = fut.done() and fut.exception() is None
                 log.append("done")
-                if sent is not None and not X.failed and shown() != sent:
+                if sent is not None and job_ok and shown() != sent:
                     extra.append(["shown-not-sent", f"sent out with {sent}, shows {shown()} after coming back"])
                 sent = None
-                delivered.append([not X.failed and not X.running, [[ch.label, val(ch.value)] for ch in X.outputs],
+                delivered.append([job_ok and not X.running, [[ch.label, val(ch.value)] for ch in X.outputs],
                                   shown_reference(case, X)])
         elif op[0] == "clear":
             X.failed = False
@@ -695,7 +703,9 @@ def op_coq(op, outer=0):
         return f"OSet {cs(op[1])} {cz(op[2])}"
     if op[0] == "oset":
         return f"OSetOn {cn(outer)} {cs(op[1])} {cz(op[2])}"
-    return {"run": "ORun", "complete": "OComplete", "clear": "OClear"}[op[0]]
+    if op[0] == "setv":         # set_input_values(label=v): the same setter through Inputs.__setitem__
+        return f"OSet {cs(op[1])} {cz(op[2])}"
+    return {"run": "ORun", "runx": "ORunX", "exec": "OExec", "complete": "OComplete", "clear": "OClear"}[op[0]]
 
 
 # The reflected initial heap belongs to ONE execution of run_impl: the order of some connection lists (the
@@ -877,7 +887,7 @@ def violations(case, obs):
         for op, r, rec in zip(case["ops"], log, obs["recs"]):
             out_before, running, failed, pending = rec
             low = merged or stuck
-            if op[0] in ("set", "oset"):      # oset: the enclosing macro's input forwards into the driven node's input
+            if op[0] in ("set", "oset", "setv"):      # oset: the enclosing macro's input forwards into the driven node's input
                 if out_before and r != "RuntimeError":
                     out.append(("lock-merged" if low else "lock",
                                 f"assignment to input {op[1]} accepted while the node is out", obs["xpath"]))
@@ -896,6 +906,12 @@ def violations(case, obs):
                     stuck = stuck or running
                 elif (r == "Future") != (pending > 0):
                     out.append(("raised", f"run() returned {r} with {pending} job(s) out", obs["xpath"]))
+            elif op[0] in ("runx", "exec"):      # no readiness gate: the failed flag must not matter, only being out does
+                if not out_before and not stuck:
+                    if r not in ("Future", "value"):
+                        out.append(("raised", f"{op[0]} on an idle node raised {r}", obs["xpath"]))
+                    elif (r == "Future") != (pending > 0):
+                        out.append(("raised", f"{op[0]} returned {r} with {pending} job(s) out", obs["xpath"]))
             elif op[0] == "complete":
                 if out_before:
                     ok, shown, expect = obs["delivered"][k]
@@ -1086,6 +1102,33 @@ def gen_nested(rng):
     return {"kind": "cycle", "kids": [kid], "target": 0, "rel": rel, "parentless": False, "ops": ops}
 
 
+def gen_failfirst(rng):
+    """fail on the executor -> repair the input -> go out again past the readiness gate (execute() or
+    run(check_readiness=False); the failed flag is sticky) -> attempts to change the inputs while out -> complete"""
+    if rng.random() < 0.7:
+        m = rng.choice([1, 2])
+        x = {"t": "leaf", "k": rng.randint(0, 9), "chk": True, "ins": [["c", rng.randint(0, 20)] for _ in range(m)],
+             "ex": rng.choice(["pb", "pb", "ipb", "man"])}
+        lab, labels = "a", ["k"] + nodes.ARG[:m]
+    else:
+        x = {"t": "macro", "cls": "MD", "ins": [["c", rng.randint(0, 20)]], "ex": rng.choice(["pb", "ipb"]), "inner": {}}
+        lab, labels = "x", ["x"]
+    redo = rng.choice(["exec", "runx"])
+    kids = [x]
+    if redo == "runx" and rng.random() < 0.5:      # execute() emits no `ran`: keep it unconnected there
+        kids.append({"t": "leaf", "k": rng.randint(0, 9), "ins": [["n", [0]]], "ex": None})
+    ops = [["set", lab, -rng.randint(1, 4)], ["run"], ["complete"], ["set", lab, rng.randint(0, 40)], [redo]]
+    for _ in range(rng.randint(1, 3)):
+        r = rng.random()
+        ops.append([rng.choice(["set", "setv"]), rng.choice(labels), rng.randint(0, 60)] if r < 0.75 else ["run"])
+    ops.append(["complete"])
+    if rng.random() < 0.5:
+        ops += [[rng.choice(["set", "setv"]), rng.choice(labels), rng.randint(0, 60)]]
+        if rng.random() < 0.5:
+            ops += [["clear"], ["run"], ["complete"]]
+    return {"kind": "cycle", "kids": kids, "target": 0, "parentless": False, "ops": ops}
+
+
 def enumerate_small():
     """sender s -> X -> receiver t with X a leaf / macro / nested macro, the three nodes, one inner node and the
     root independently local / manual / pickle boundary, every completion order of the (at most three) jobs"""
@@ -1148,6 +1191,8 @@ def generate(ctx):
         out.append(gen_cycle(rng))
     for _ in range(ctx.n(120, 1200)):
         out.append(gen_nested(rng))
+    for _ in range(ctx.n(80, 800)):
+        out.append(gen_failfirst(rng))
     if not ctx.quick:
         out.extend(enumerate_small())
     return out
